@@ -3,7 +3,7 @@
 import os, subprocess, sys
 sys.path.insert(0, os.path.dirname(os.path.abspath(__file__)))
 VERIF = os.path.dirname(os.path.dirname(os.path.abspath(__file__)))
-import gen_lean, build_harness
+import gen_lean, gen_rates, build_harness
 def main():
     ros, be, lits, errs = gen_lean.load_all()
     text = gen_lean.emit_lean(ros, be, lits, errs)
@@ -11,6 +11,7 @@ def main():
     os.makedirs(os.path.dirname(gp), exist_ok=True)
     if not os.path.exists(gp) or open(gp).read() != text:
         open(gp, "w").write(text)
+    gen_rates.write()
     r = subprocess.run(["lake", "build", "Micm", "micm_model"], cwd=os.path.join(VERIF, "lean"))
     if r.returncode != 0:
         sys.exit(1)
